@@ -115,6 +115,7 @@ func PoolSequential(pw *poolWriter, rng *rand.Rand, ty string, ch, l, k, steps, 
 	ids := map[any]int{}
 	keep := []View{} // every buffer ever seen stays referenced: addresses are never recycled
 	var held []heldBuf
+	var grown []View // handles that outgrew pool storage: ordinary buffers from then on, whatever happens to the pool
 	stamp := int64(0)
 	next := func() int64 { stamp = stamp%100 + 1; return stamp }
 	stamps := func(n int) []int64 {
@@ -175,6 +176,7 @@ func PoolSequential(pw *poolWriter, rng *rand.Rand, ty string, ch, l, k, steps, 
 				src := NewView(ty, allocator(ch, k+1, k+1))
 				src.Write(KindOf(ty), stamps(ch*(k+1)))
 				v.Append(src) // not an operation on the pooled storage any more: v now lives elsewhere
+				grown = append(grown, v)
 				h.v = nv
 				v = nv
 				e.Kind, e.A = "Slice0", []int64{int64(fr)}
@@ -230,6 +232,18 @@ func PoolSequential(pw *poolWriter, rng *rand.Rand, ty string, ch, l, k, steps, 
 				}
 				if ch == 0 || v.Len()%ch != 0 || room == 0 {
 					continue
+				}
+				// the source may be ANOTHER buffer held from this pool (equal capacities): the appended samples are
+				// copied, the two buffers keep their own storage
+				if oi := (hi + 1) % len(held); oi != hi && rng.Intn(2) == 0 {
+					o := held[oi].v
+					if o.Len() > 0 && o.Len()%ch == 0 && o.Len()/ch <= room {
+						in, _ := o.Slice(0, o.Len()/ch).Data()
+						in = in[:o.Len()]
+						v.Append(o)
+						e.Kind, e.A = "Append", in
+						break
+					}
 				}
 				n := 1 + rng.Intn(room)
 				src := NewView(ty, allocator(ch, n, n))
@@ -289,9 +303,58 @@ func PoolSequential(pw *poolWriter, rng *rand.Rand, ty string, ch, l, k, steps, 
 			res := run(func() { pool.Put(h.v, byValue) })
 			pw.emit(&PEvent{Op: "Put", G: 1, ID: h.id, Res: res, Allocs: lastAllocs})
 			held = append(held[:hi], held[hi+1:]...)
+			for _, g := range grown { // still usable: slicing, reading, storing (they do not belong to the pool)
+				if r := run(func() {
+					s := g.Slice(0, g.Length())
+					if s.Len() > 0 {
+						s.SetSample(0, s.Sample(0))
+					}
+				}); r != "ok" {
+					pw.emit(&PEvent{Op: "Use", G: 1, Kind: "Crash", Res: r, Allocs: -1})
+					return
+				}
+			}
 		}
 	}
 	return
+}
+
+// PoolBig: get / stamp the whole capacity / put / get again immediately; the new holder writes at once and looks
+// again a moment later (a clear still running in the background would wipe it).
+func PoolBig(pw *poolWriter, ty string, ch, l, k, cycles int) {
+	pool := NewPool(ty, allocator(ch, l, k))
+	pw.tid++
+	pw.Traces++
+	pw.emit(&PEvent{Op: "NewPool", Kind: KindOf(ty), Ch: ch, L: l, K: k, Procs: 1, Res: "ok", Allocs: -1})
+	ids := map[any]int{}
+	keep := []View{}
+	for c := 0; c < cycles; c++ {
+		v := pool.Get(false)
+		keep = append(keep, v)
+		id, seen := ids[v.Raw()]
+		if !seen {
+			id = len(ids) + 1
+			ids[v.Raw()] = id
+		}
+		e := &PEvent{Op: "Get", G: 1, ID: id, Res: "ok", View: obsOf(v), Allocs: -1}
+		if seen {
+			e.Reused = 1
+		}
+		pw.emit(e)
+		nv := v.Slice(0, k)
+		keep = append(keep, nv)
+		ids[nv.Raw()] = id
+		pw.emit(&PEvent{Op: "Use", G: 1, ID: id, Res: "ok", Kind: "Slice0", A: []int64{int64(k)}, View: obsOf(nv), Allocs: -1})
+		in := make([]int64, nv.Len())
+		for i := range in {
+			in[i] = int64(1 + (i+c)%100)
+		}
+		nv.Write(KindOf(ty), in)
+		time.Sleep(3 * time.Millisecond)
+		pw.emit(&PEvent{Op: "Use", G: 1, ID: id, Res: "ok", Kind: "Write", A: in, View: obsOf(nv), Allocs: -1})
+		res := run(func() { pool.Put(nv, false) })
+		pw.emit(&PEvent{Op: "Put", G: 1, ID: id, Res: res, Allocs: -1})
+	}
 }
 
 // PoolZero: pools whose allocator has zero channels or zero capacity (C20, C10): get / sample-append / put cycles
@@ -629,6 +692,13 @@ func runPoolProfile(profile string, thorough bool, seed int64, out string) (*Sta
 					st.Extra["reused_gets"] += r
 				})
 			}
+		}
+		// buffers of 2^16 samples and more: stamped over the whole capacity, put back and taken out again at once
+		for _, sh := range []struct {
+			ty       string
+			ch, l, k int
+		}{{"int16", 1, 0, 1 << 16}, {"float64", 2, 7, 1<<15 + 3}} {
+			poolGuard(pw, func() { PoolBig(pw, sh.ty, sh.ch, sh.l, sh.k, 3) })
 		}
 	case "poolcycle":
 		EnableMeasure()
